@@ -212,8 +212,66 @@ def seq_opt_by_walks(rp):
     return best is not None, best
 
 
+def small_crosscheck(ctx, step):
+    """The generated call list of examples/small.py against what the real builders do: same nodes, arcs, routes (in order)
+    with the costs the Coq model computes, same default grid / high cost / sequence sizes; the exhaustive minimum of the real
+    default-penalty path QUBO is 5 (attained by the partition of C08_small_gen_partition_5)."""
+    import itertools
+    import numpy as np
+    try:
+        from vrpqubo.examples import small as SM
+        import translate_small as TS
+        S = TS.Small(__import__("ast").parse(open(__import__("os").path.join(TS._REPO, TS.REL)).read()))
+        cap, init, names, ops = S.vrptw()
+        routes, grid, high, (V, L) = S.path_based(names), S.arc_based(), S.high_cost(), S.sequence_based()
+    except Exception as e:  # noqa: a source the translator rejects is already a deferred obligation
+        ctx.cov["small_crosscheck"] = f"skipped: {type(e).__name__}: {e}"
+        return
+    problems = []
+    g = SM.get_vrptw()
+    want_nodes = [o[5] for o in ops if o[0] == "node"]
+    if list(g.node_names) != want_nodes:
+        problems.append(f"get_vrptw() has nodes {list(g.node_names)}, the generated call list adds {want_nodes}")
+    pos = {nm: k for k, nm in enumerate(want_nodes)}
+    want_arcs = {(pos[o[5]], pos[o[6]]): (o[3], o[4]) for o in ops if o[0] == "arc"}
+    got_arcs = {(int(i), int(j)): (a.travel_time, a.cost) for (i, j), a in g.arcs.items()}
+    if got_arcs != want_arcs:
+        problems.append(f"get_vrptw() stores arcs {sorted(got_arcs.items())}, the generated call list gives {sorted(want_arcs.items())}")
+    if (g.vehicle_cap, g.initial_loading) != (cap, init):
+        problems.append(f"capacity / initial loading {(g.vehicle_cap, g.initial_loading)} != {(cap, init)}")
+    pb = SM.get_path_based()
+    want_routes = [[pos[s] for s in r] for r in routes]
+    got_routes = [list(map(int, r)) for r in pb.routes]
+    it = iter(want_routes)
+    if not all(any(r == w for w in it) for r in got_routes):      # stored routes = the listed ones, in order, minus refused ones
+        problems.append(f"get_path_based() stores routes {[list(map(int, r)) for r in pb.routes]}, the generated call list gives {want_routes}")
+    ab = SM.get_arc_based()
+    if [float(t) for t in ab.time_points] != sorted(float(t) for t in grid):
+        problems.append(f"default time points {list(ab.time_points)} != sorted {grid}")
+    sb = SM.get_sequence_based()
+    if (sb.max_vehicles, sb.max_sequence_length) != (V, L) or SM.get_high_cost() != high:
+        problems.append(f"sequence sizes / high cost {(sb.max_vehicles, sb.max_sequence_length, SM.get_high_cost())} != {(V, L, high)}")
+    if not problems:
+        Q, k = pb.get_qubo(feasibility=False, penalty_parameter=None)
+        Qd = Q.toarray() if hasattr(Q, "toarray") else np.asarray(Q)
+        n = Qd.shape[0]
+        best = min(float(np.array(x) @ Qd @ np.array(x) + k) for x in itertools.product((0, 1), repeat=n))
+        ctx.count(evaluations=2 ** n)
+        if best != 5.0:
+            problems.append(f"minimum of the default-penalty QUBO of examples.small.get_path_based() is {best}, the value test_small.py hard-codes and the "
+                            f"partition D-1-2-3-D attains (C08_small_gen_partition_5) is 5")
+    ctx.cov["small_crosscheck"] = {"nodes": want_nodes, "arcs": len(want_arcs), "routes": len(want_routes), "problems": problems}
+    for msg in problems:
+        ctx.violation("oracle/small-example", "examples/small.py: " + msg, {"python": "props.c08.small_crosscheck"}, True)
+
+
 def run(ctx):
     ctx.prove()
+    # model regenerated from the source: examples/small.py (the instance of test_small.py) as a call list; its pool is
+    # proved complete, so the path-based C08 theorems hold for it without hypotheses
+    from props import genreg
+    small_step = genreg.steps(ctx, ("small",))[0]
+    small_crosscheck(ctx, small_step)
     rng = ctx.rng
     n_inst = 250 if ctx.quick else 1500
     dist = {"instances": 0, "feasible": 0, "infeasible": 0, "skipped_capacity_binding": 0, "customers": {1: 0, 2: 0, 3: 0},
